@@ -469,6 +469,29 @@ func genC08Args(t *rapid.T, s vScenario) ([]string, map[string]string) {
 	default:
 		// no command at all
 	}
+	// one option in four cases from the program's own flag definitions (read at run time: whatever boolean options the
+	// tree under test declares, also ones this file does not name), as flag or through its environment variable
+	if rapid.IntRange(0, 3).Draw(t, "surface") == 0 {
+		var path []string
+		if len(c) > 0 {
+			w := c[0]
+			path = []string{w}
+			if (w == "csv" || w == "report") && len(c) > 1 {
+				path = append(path, c[1])
+			}
+		}
+		if opts := vSurfaceBools(path); len(opts) > 0 {
+			o := opts[rapid.IntRange(0, len(opts)-1).Draw(t, "surfacei")]
+			switch o.Where {
+			case "global":
+				g = append(g, o.Name)
+			case "command":
+				c = append(append(append([]string{}, c[:len(path)]...), o.Name), c[len(path):]...)
+			case "env":
+				env[o.Name] = []string{"1", "true", "0", "yes", ""}[rapid.IntRange(0, 4).Draw(t, "surfaceenv")]
+			}
+		}
+	}
 	return append(g, c...), env
 }
 
